@@ -50,27 +50,27 @@ Section One.
     - (* Set *)
       unfold set_start. destruct (category T k) eqn:Hc; cbn [is_pers_cat andb] in Hp; try rewrite Hp; rewrite <- ?Hct;
         unfold finish; cbn [cur cpc ops faults me fst snd spec_op];
-        rewrite ?tget_add_hist, ?tget_wr_same, ?spawned_wr, ?hist_wr; cbn; rewrite ?spawned_wr, ?hist_wr; repeat split; reflexivity.
+        rewrite ?tget_add_hist, ?tget_wr_same, ?spawned_wr, ?hist_wr; cbn; rewrite ?spawned_wr, ?hist_wr; repeat split; first [reflexivity | exact Hf].
     - (* Get *)
       unfold get_start. destruct (category T k) eqn:Hc; cbn [is_pers_cat andb] in Hp; try rewrite Hp; rewrite <- ?Hct;
         destruct (tget w ct k) eqn:Ev; unfold get_done, val_res, finish; cbn [cur cpc ops faults me fst snd spec_op];
-        rewrite ?tget_add_hist, ?tget_acc, ?Ev; cbn; repeat split; reflexivity.
+        rewrite ?tget_add_hist, ?tget_acc, ?Ev; cbn; repeat split; first [reflexivity | exact Hf].
     - (* Delete *)
       unfold del_start. destruct (category T k) eqn:Hc; cbn [is_pers_cat andb] in Hp; try rewrite Hp; rewrite <- ?Hct;
         unfold finish; cbn [cur cpc ops faults me fst snd spec_op];
-        rewrite ?tget_add_hist, ?tget_wr_same; cbn; rewrite ?spawned_wr, ?hist_wr; repeat split; reflexivity.
+        rewrite ?tget_add_hist, ?tget_wr_same; cbn; rewrite ?spawned_wr, ?hist_wr; repeat split; first [reflexivity | exact Hf].
     - (* Exists *)
       unfold exists_start. destruct (category T k) eqn:Hc; cbn [is_pers_cat andb negb] in Hp |- *; try rewrite Hp; rewrite <- ?Hct;
         destruct (tget w ct k) eqn:Ev; cbn [is_some]; unfold finish; cbn [cur cpc ops faults me fst snd spec_op];
-        rewrite ?tget_add_hist, ?tget_acc, ?Ev; cbn; repeat split; reflexivity.
+        rewrite ?tget_add_hist, ?tget_acc, ?Ev; cbn; repeat split; first [reflexivity | exact Hf].
     - (* Incr *)
       unfold incr_start. rewrite Hfi. fold ct.
       destruct (tget w ct k) as [[n|l|n]|] eqn:Ev; unfold finish; cbn [cur cpc ops faults me fst snd spec_op];
-        rewrite ?tget_add_hist, ?tget_wr_same, ?tget_acc, ?Ev; cbn; rewrite ?spawned_wr, ?hist_wr; repeat split; reflexivity.
+        rewrite ?tget_add_hist, ?tget_wr_same, ?tget_acc, ?Ev; cbn; rewrite ?spawned_wr, ?hist_wr; repeat split; first [reflexivity | exact Hf].
     - (* SetNX *)
       unfold setnx_start. rewrite Hfn, H1. cbn [andb]. fold ct.
       destruct (tget w ct k) eqn:Ev; unfold finish; cbn [cur cpc ops faults me fst snd spec_op];
-        rewrite ?tget_add_hist, ?tget_wr_same, ?tget_acc, ?Ev; cbn; rewrite ?spawned_wr, ?hist_wr; repeat split; reflexivity.
+        rewrite ?tget_add_hist, ?tget_wr_same, ?tget_acc, ?Ev; cbn; rewrite ?spawned_wr, ?hist_wr; repeat split; first [reflexivity | exact Hf].
   Qed.
 
   Definition thread1_ok (t : thread) : Prop :=
